@@ -1,0 +1,118 @@
+//! Verification hooks. Compiled only with `--cfg noodles_verif`.
+//!
+//! Public wrappers around the crate-private block codecs and variable-length integer helpers, so
+//! that a test harness can drive them directly.
+
+use std::io::{self, Read, Write};
+
+use crate::codecs::{aac, bzip2, fqzcomp, gzip, lzma, name_tokenizer, rans_4x8, rans_nx16};
+
+/// rANS 4x8 encode.
+pub fn rans_4x8_encode(order: rans_4x8::Order, src: &[u8]) -> io::Result<Vec<u8>> {
+    rans_4x8::encode(order, src)
+}
+
+/// rANS 4x8 decode.
+pub fn rans_4x8_decode(src: &[u8]) -> io::Result<Vec<u8>> {
+    rans_4x8::decode(src)
+}
+
+/// rANS Nx16 encode.
+pub fn rans_nx16_encode(flags: rans_nx16::Flags, src: &[u8]) -> io::Result<Vec<u8>> {
+    rans_nx16::encode(flags, src)
+}
+
+/// rANS Nx16 decode.
+pub fn rans_nx16_decode(src: &[u8], uncompressed_size: usize) -> io::Result<Vec<u8>> {
+    rans_nx16::decode(src, uncompressed_size)
+}
+
+/// Adaptive arithmetic coder encode.
+pub fn aac_encode(flags: aac::Flags, src: &[u8]) -> io::Result<Vec<u8>> {
+    aac::encode(flags, src)
+}
+
+/// Adaptive arithmetic coder decode.
+pub fn aac_decode(src: &[u8], uncompressed_size: usize) -> io::Result<Vec<u8>> {
+    aac::decode(src, uncompressed_size)
+}
+
+/// fqzcomp encode.
+pub fn fqzcomp_encode(lens: &[usize], src: &[u8]) -> io::Result<Vec<u8>> {
+    fqzcomp::encode(lens, src)
+}
+
+/// fqzcomp decode.
+pub fn fqzcomp_decode(src: &[u8]) -> io::Result<Vec<u8>> {
+    fqzcomp::decode(src)
+}
+
+/// Name tokenizer encode.
+pub fn name_tokenizer_encode(src: &[u8]) -> io::Result<Vec<u8>> {
+    name_tokenizer::encode(src)
+}
+
+/// Name tokenizer decode.
+pub fn name_tokenizer_decode(src: &[u8]) -> io::Result<Vec<u8>> {
+    name_tokenizer::decode(src)
+}
+
+/// gzip encode.
+pub fn gzip_encode(compression_level: flate2::Compression, src: &[u8]) -> io::Result<Vec<u8>> {
+    gzip::encode(compression_level, src)
+}
+
+/// gzip decode.
+pub fn gzip_decode(src: &[u8], dst: &mut [u8]) -> io::Result<()> {
+    gzip::decode(src, dst)
+}
+
+/// bzip2 encode.
+pub fn bzip2_encode(compression_level: ::bzip2::Compression, src: &[u8]) -> io::Result<Vec<u8>> {
+    bzip2::encode(compression_level, src)
+}
+
+/// bzip2 decode.
+pub fn bzip2_decode(src: &[u8], dst: &mut [u8]) -> io::Result<()> {
+    bzip2::decode(src, dst)
+}
+
+/// LZMA encode.
+pub fn lzma_encode(compression_level: u32, src: &[u8]) -> io::Result<Vec<u8>> {
+    lzma::encode(compression_level, src)
+}
+
+/// LZMA decode.
+pub fn lzma_decode(src: &[u8], dst: &mut [u8]) -> io::Result<()> {
+    lzma::decode(src, dst)
+}
+
+/// Reads an ITF8 integer.
+pub fn read_itf8<R: Read>(reader: &mut R) -> io::Result<i32> {
+    crate::io::reader::num::read_itf8(reader)
+}
+
+/// Writes an ITF8 integer.
+pub fn write_itf8<W: Write>(writer: &mut W, n: i32) -> io::Result<()> {
+    crate::io::writer::num::write_itf8(writer, n)
+}
+
+/// Reads an LTF8 integer.
+pub fn read_ltf8<R: Read>(reader: &mut R) -> io::Result<i64> {
+    crate::io::reader::num::read_ltf8(reader)
+}
+
+/// Writes an LTF8 integer.
+pub fn write_ltf8<W: Write>(writer: &mut W, n: i64) -> io::Result<()> {
+    crate::io::writer::num::write_ltf8(writer, n)
+}
+
+/// Reads a 7-bit variable-length unsigned integer.
+pub fn read_uint7<R: Read>(reader: &mut R) -> io::Result<u32> {
+    crate::io::reader::num::read_uint7(reader)
+}
+
+/// Writes a 7-bit variable-length unsigned integer.
+pub fn write_uint7<W: Write>(writer: &mut W, n: u32) -> io::Result<()> {
+    crate::io::writer::num::write_uint7(writer, n)
+}
